@@ -6,21 +6,37 @@
 EXTENDS Pls, TraceBase
 CONSTANT PropOnly
 VARIABLE l
-tvars == <<ny, nlv, phase, nobj, nvar, xsc, ysc, k, colsSeen, residSeen, prev, lastA, floorRss, l>>
+tvars == <<pvars, l>>
 Ev == Tr[l]
 Step == l' = l + 1
 At(name) == l <= Len(Tr) /\ Ev.e = name
 
 TInit == l = 1 /\ PInit
-TReset == At("Reset") /\ Step /\ phase' = "idle" /\ UNCHANGED <<ny, nlv, nobj, nvar, xsc, ysc, k, colsSeen, residSeen, prev, lastA, floorRss>>
+TReset == At("Reset") /\ Step /\ phase' = "idle" /\ UNCHANGED <<shapeV, k, colsSeen, residSeen, prev, lastA, floorRss>>
 TSkip == At("Skip") /\ Step /\ UNCHANGED pvars
-TFit == At("Fit") /\ Step /\ PFit(Ev.n, Ev.p, Ev.ny, Ev.nlv, Ev.xs, Ev.ys)
+\* a Fit event of the C04 driver carries no rank / offsets (tall full-column-rank problems, offsets below 10 spreads): rank = p, offsets 0.
+\* The class tags the evidence counts are re-derived here: the shape tag must be ShapeOf(n, p), the magnitude decades within +-6
+FRank == IF Has(Ev, "rank") THEN Ev.rank ELSE Ev.p
+FOffx == IF Has(Ev, "offx") THEN Ev.offx ELSE 0
+FOffy == IF Has(Ev, "offy") THEN Ev.offy ELSE 0
+TFit == /\ At("Fit") /\ Step /\ PFit(Ev.n, Ev.p, Ev.ny, Ev.nlv, Ev.xs, Ev.ys, FRank, FOffx, FOffy)
+        /\ (Has(Ev, "shape") => Ev.shape = ShapeOf(Ev.n, Ev.p))
+        /\ (Has(Ev, "lgx") => Ev.lgx \in -6..6 /\ Ev.lgy \in -6..6)
+        /\ (Has(Ev, "inst") => ((Ev.inst = 1) <=> (FRank = RankBound(Ev.n, Ev.p, Ev.xs))))     \* inside / outside the statement: decided here
 TLv == /\ At("Lv") /\ Step /\ PLv(Ev.a, Ev.tortho, Ev.wortho, Ev.recon, Ev.reproj)
        /\ (PropOnly \/ ImplLv(Ev.pnorm, Ev.qnorm, Ev.udefl, Ev.binner))
 TCol == At("Col") /\ Step /\ PCol(Ev.a, Ev.j, Ev.col, Ev.found, Ev.recalcErr, Ev.allErr)
 TResid == At("Resid") /\ Step /\ PResid(Ev.a, Ev.j, Ev.col, Ev.against, Ev.residErr)
 TTab == At("Tab") /\ Step /\ PTab(Ev.n, Ev.ny, Ev.nlv, Ev.y, Ev.rec, Ev.res)
 TEnd == At("End") /\ Step /\ PEnd(Ev.lvs, Ev.cols, Ev.full, Ev.xfull)
+TScore == At("Score") /\ Step /\ PScore(Ev.req, Ev.got, Ev.err)
+TYPred == At("YPred") /\ Step /\ PYPred(Ev.a, Ev.src, Ev.err)
+TAllLv == At("AllLv") /\ Step /\ PAllLv(Ev.cols, Ev.scols, Ev.scoreErr, Ev.err)
+TVarExp == At("VarExp") /\ Step /\ PVarExp(Ev.a, Ev.err)
+TPrep == /\ At("Prep") /\ Step /\ PPrep(Ev.xavg, Ev.yavg)
+         /\ (PropOnly \/ ImplPrep(Ev.xscl, Ev.yscl))
+THist == At("Hist") /\ Step /\ PHist(Ev.fits, Ev.same)
+TRefit == At("Refit") /\ Step /\ PRefit(Ev.rc, Ev.bsize, Ev.reccols, Ev.varexp, Ev.same)
 TRss == At("Rss") /\ Step /\ PRss(Ev.a, Ev.j, Ev.rss, Ev.r2gap)
 TOls == At("Ols") /\ Step /\ POls(Ev.j, Ev.rssPls, Ev.rssOls, Ev.err, Ev.full)
 TBeta == At("Beta") /\ Step /\ PBeta(Ev.a, Ev.errTrain, Ev.errNew)
@@ -29,7 +45,7 @@ TAffine == At("Affine") /\ Step /\ PAffine(Ev.c, Ev.d, Ev.errTrain, Ev.errNew)
 TXScale == At("XScale") /\ Step /\ PXScale(Ev.lg, Ev.errTrain, Ev.errNew)
 TReuse == At("Reuse") /\ Step /\ PReuse(Ev.calls, Ev.err)
 
-TNext == TReset \/ TSkip \/ TFit \/ TLv \/ TCol \/ TResid \/ TTab \/ TEnd \/ TRss \/ TOls \/ TBeta \/ TStat \/ TAffine \/ TXScale \/ TReuse
+TNext == TReset \/ TSkip \/ TFit \/ TLv \/ TCol \/ TResid \/ TTab \/ TEnd \/ TScore \/ TYPred \/ TAllLv \/ TVarExp \/ TPrep \/ THist \/ TRefit \/ TRss \/ TOls \/ TBeta \/ TStat \/ TAffine \/ TXScale \/ TReuse
 TSpec == TInit /\ [][TNext]_tvars
 TraceAccepted == Accepted
 Diag == ShowCursor(l)
